@@ -609,6 +609,7 @@ impl Terminal {
         self.origin_mode = false;
         self.auto_wrap_mode = true;
         self.new_line_mode = false;
+        self.cursor_keys_mode = CursorKeysMode::Normal;
         self.pending_wrap = false;
         self.top_margin = 0;
         self.bottom_margin = self.rows - 1;
